@@ -362,8 +362,11 @@ impl ProcfsHandle {
         // NOTE: There is technically a race here, but it relies the target path
         //       being a magic-link and then another thing being mounted on top.
         //       This is the same race as below.
-        if self.readlink(base, subpath).is_err() {
-            return self.open(base, subpath, oflags).map(File::from);
+        match self.readlink(base, subpath) {
+            Ok(_) => (),
+            // A detected attack must not be mistaken for "not a symlink".
+            Err(err) if err.is_safety_violation() => return Err(err),
+            Err(_) => return self.open(base, subpath, oflags).map(File::from),
         }
 
         // Get a no-follow handle to the parent of the magic-link.
